@@ -210,7 +210,9 @@ struct Outcome {
     failure: Option<Failure>,
 }
 
-fn check_kinds(kinds: &[TK], entries: &[Entry]) -> Outcome {
+/// `levels`: the number of nesting levels when the generator knows it (levels without brackets,
+/// such as `'p 'p 'p num`, are as exponential for the uncached parse as bracketed ones).
+fn check_kinds(kinds: &[TK], entries: &[Entry], levels: Option<usize>) -> Outcome {
     let mut o = Outcome { checks: 0, max_ratio_milli: 0, hits: 0, equiv_checked: false, failure: None };
     let show = || kinds.iter().map(|k| format!("{k:?}")).collect::<Vec<_>>().join(" ");
     for &entry in entries {
@@ -226,7 +228,7 @@ fn check_kinds(kinds: &[TK], entries: &[Entry]) -> Outcome {
             ));
             return o;
         }
-        if nesting(kinds) <= UNCACHED_MAX_NESTING || kinds.len() < UNCACHED_ALWAYS_BELOW_TOKENS {
+        if levels.unwrap_or_else(|| nesting(kinds)) <= UNCACHED_MAX_NESTING || kinds.len() < UNCACHED_ALWAYS_BELOW_TOKENS {
             let (d2, _, _) = parse_with(kinds, entry, false);
             o.checks += 1;
             o.equiv_checked = true;
@@ -290,12 +292,13 @@ struct Phases {
     programs: u64,
     flat: u64,
     huge: u64,
+    mixed: u64,
 }
 
 fn phases(tier: Tier) -> Phases {
     match tier {
-        Tier::Quick => Phases { exhaustive_len: 4, sampled: 200_000, random: 40_000, nested: 7 * 40, programs: 4_000, flat: 400, huge: 8 },
-        Tier::Thorough => Phases { exhaustive_len: 6, sampled: 0, random: 800_000, nested: 7 * 40, programs: 100_000, flat: 8_000, huge: 64 },
+        Tier::Quick => Phases { exhaustive_len: 4, sampled: 200_000, random: 40_000, nested: 7 * 40, programs: 4_000, flat: 400, huge: 8, mixed: 60_000 },
+        Tier::Thorough => Phases { exhaustive_len: 6, sampled: 0, random: 800_000, nested: 7 * 40, programs: 100_000, flat: 8_000, huge: 64, mixed: 1_500_000 },
     }
 }
 
@@ -324,6 +327,61 @@ fn nested_kinds(which: usize, depth: usize) -> Vec<TK> {
     frame(&v)
 }
 
+/// One level of a mixed nesting: tokens before and after the nested expression.
+const LEVELS: [(&[TK], &[TK]); 22] = [
+    (&[TK::ControlParenLeft], &[TK::ControlParenRight]),
+    (&[TK::ControlBracketLeft], &[TK::ControlBracketRight]),
+    (&[TK::ControlBraceLeft, TK::Property], &[TK::ControlBraceRight]),
+    (&[TK::ControlChevronLeft], &[TK::ControlChevronRight]),
+    (&[TK::ControlChevronLeft, TK::ContentHeaders, TK::OperatorEqual], &[TK::ControlChevronRight]),
+    (&[TK::ControlChevronLeft, TK::ContentMedia, TK::OperatorEqual], &[TK::ControlChevronRight]),
+    (&[TK::ControlChevronLeft, TK::ContentStatus, TK::OperatorEqual], &[TK::ControlChevronRight]),
+    (&[TK::ControlChevronLeft, TK::ContentHeaders, TK::OperatorEqual], &[TK::ControlComma, TK::PrimitiveNum, TK::ControlChevronRight]),
+    (&[TK::PathElementRoot, TK::ControlBraceLeft, TK::Property], &[TK::ControlBraceRight]),
+    (&[TK::IdentifierValue, TK::ControlParenLeft], &[TK::ControlParenRight]),
+    (&[TK::PathElementRoot, TK::KeywordOn, TK::MethodGet, TK::OperatorArrow, TK::ControlChevronLeft], &[TK::ControlChevronRight]),
+    (&[TK::PathElementRoot, TK::KeywordOn, TK::MethodGet, TK::OperatorColon], &[TK::OperatorArrow, TK::PrimitiveNum]),
+    (&[TK::KeywordRec, TK::IdentifierValue], &[]),
+    (&[TK::ControlBraceLeft, TK::Property], &[TK::ControlComma, TK::Property, TK::PrimitiveNum, TK::ControlBraceRight]),
+    (&[TK::ControlBraceLeft, TK::Property, TK::PrimitiveNum, TK::ControlComma, TK::Property], &[TK::ControlBraceRight]),
+    (&[TK::Property], &[]),
+    (&[TK::AnnotationLine], &[]),
+    (&[TK::ControlParenLeft], &[TK::ControlParenRight, TK::AnnotationInline]),
+    (&[TK::IdentifierValue], &[]),
+    (&[TK::PrimitiveNum, TK::OperatorVerticalBar], &[]),
+    (&[], &[TK::OperatorAmpersand, TK::PrimitiveNum]),
+    (&[], &[TK::OperatorDoubleColon, TK::ControlChevronLeft, TK::ControlChevronRight]),
+];
+
+/// A nesting whose every level is drawn from `LEVELS`.
+fn mixed_kinds(tape: &mut Tape) -> (Vec<TK>, usize) {
+    let depth = tape.range(1, 40);
+    let mut before: Vec<TK> = Vec::new();
+    let mut after: Vec<Vec<TK>> = Vec::new();
+    // Either one kind of level all the way down with a few strangers, or any mixture.
+    let uniform = if tape.chance(1, 3) { Some(tape.choose(LEVELS.len())) } else { None };
+    for _ in 0..depth {
+        let l = match uniform {
+            Some(u) if !tape.chance(1, 6) => u,
+            _ => tape.choose(LEVELS.len()),
+        };
+        before.extend_from_slice(LEVELS[l].0);
+        after.push(LEVELS[l].1.to_vec());
+    }
+    let core: &[TK] = match tape.choose(5) {
+        0 => &[TK::PrimitiveNum],
+        1 => &[TK::ControlBraceLeft, TK::ControlBraceRight],
+        2 => &[TK::ControlChevronLeft, TK::ControlChevronRight],
+        3 => &[TK::IdentifierValue],
+        _ => &[],
+    };
+    before.extend_from_slice(core);
+    for a in after.iter().rev() {
+        before.extend_from_slice(a);
+    }
+    (frame(&before), depth)
+}
+
 const DEPTHS: [usize; 40] = [
     1, 2, 3, 4, 5, 6, 7, 8, 9, 10, 12, 14, 16, 18, 20, 25, 30, 35, 40, 50, 60, 70, 80, 90, 100, 120, 140, 160, 180, 200, 250, 300, 350, 400, 500, 600, 700, 800, 900, 1000,
 ];
@@ -337,7 +395,7 @@ impl Property for C12 {
     }
     fn cases(&self, tier: Tier) -> u64 {
         let p = phases(tier);
-        seq_space(15, p.exhaustive_len) + p.sampled + p.random + p.nested + p.programs + p.flat + p.huge
+        seq_space(15, p.exhaustive_len) + p.sampled + p.random + p.nested + p.programs + p.flat + p.huge + p.mixed
     }
     fn rule(&self) -> String {
         format!(
@@ -367,6 +425,7 @@ impl Property for C12 {
         let mut i = ctx.index;
         let space = seq_space(15, p.exhaustive_len);
         let all_entries = [Entry::Program, Entry::Statement, Entry::Expression];
+        let mut levels: Option<usize> = None;
         let (phase, kinds, entries): (&str, Vec<TK>, &[Entry]) = if i < space {
             let seq = decode_seq(i, 15, p.exhaustive_len);
             ("exhaustive", frame(&seq.iter().map(|k| REDUCED[*k]).collect::<Vec<_>>()), &all_entries)
@@ -402,6 +461,10 @@ impl Property for C12 {
                         let which = (i as usize) % 7;
                         let depth = DEPTHS[(i as usize) / 7];
                         ("nested", nested_kinds(which, depth), &all_entries[..1])
+                    } else if i - p.nested >= p.programs + p.flat + p.huge {
+                        let (v, depth) = mixed_kinds(tape);
+                        levels = Some(depth);
+                        ("mixed", v, &all_entries[..1])
                     } else if i - p.nested >= p.programs + p.flat {
                         // Very long flat inputs (50 000 - 100 000 tokens): the cached parse only, with the
                         // CPU time it takes as a second measure of work (a memo table that degrades
@@ -459,7 +522,10 @@ impl Property for C12 {
                 }
             }
         };
-        let o = check_kinds(&kinds, entries);
+        if std::env::var("OALVERIF_DEBUG_C12").is_ok() {
+            eprintln!("C12 {phase}: {} tokens, nesting {}: {}", kinds.len(), nesting(&kinds), kinds.iter().map(|k| format!("{k:?}")).collect::<Vec<_>>().join(" "));
+        }
+        let o = check_kinds(&kinds, entries, levels);
         let mut r = CaseReport::default();
         r.hash = {
             use std::hash::{Hash, Hasher};
@@ -482,7 +548,7 @@ impl Property for C12 {
             r.fail(f);
         }
         if ctx.want_rendered || r.failure.is_some() {
-            r.rendered = Some(json!({"phase": phase, "kinds": kinds.iter().map(|k| format!("{k:?}")).collect::<Vec<_>>()}));
+            r.rendered = Some(json!({"phase": phase, "levels": levels, "kinds": kinds.iter().map(|k| format!("{k:?}")).collect::<Vec<_>>()}));
         }
         r
     }
@@ -502,7 +568,7 @@ impl Property for C12 {
                 None => Ok(()),
             });
         }
-        let o = check_kinds(&kinds, &[Entry::Program, Entry::Statement, Entry::Expression]);
+        let o = check_kinds(&kinds, &[Entry::Program, Entry::Statement, Entry::Expression], case.get("levels").and_then(|l| l.as_u64()).map(|l| l as usize));
         Some(match o.failure {
             Some(f) => Err(f),
             None => Ok(()),
